@@ -96,6 +96,12 @@ void run_cvc(uint64_t seed, const sk_mask* mask, sk_result* out)
 		b2_date(a->cvc.from, a->from), b2_date(a->cvc.until, a->until);
 		if (sk_chance(&r, 1, 2))
 			sk_bytes(&r, a->cvc.hat_eid, 5), sk_bytes(&r, a->cvc.hat_esign, 2);
+			/* an all-zero access word is the documented "no rights" case, and its block may be left out
+			   of the certificate: each word independently zero in a quarter of the certificates */
+			if (sk_chance(&fr, 1, 4))
+				memset(a->cvc.hat_eid, 0, 5);
+			if (sk_chance(&fr, 1, 4))
+				memset(a->cvc.hat_esign, 0, 2);
 		b2_keypair(a->priv, a->cvc.pubkey, a->privlen, tape_gen, &tape);
 		a->cvc.pubkey_len = 0;
 		n = sizeof(a->cert);
@@ -138,6 +144,12 @@ void run_cvc(uint64_t seed, const sk_mask* mask, sk_result* out)
 		b2_date(a->cvc.from, a->from), b2_date(a->cvc.until, a->until);
 		if (sk_chance(&r, 1, 2))
 			sk_bytes(&r, a->cvc.hat_eid, 5), sk_bytes(&r, a->cvc.hat_esign, 2);
+			/* an all-zero access word is the documented "no rights" case, and its block may be left out
+			   of the certificate: each word independently zero in a quarter of the certificates */
+			if (sk_chance(&fr, 1, 4))
+				memset(a->cvc.hat_eid, 0, 5);
+			if (sk_chance(&fr, 1, 4))
+				memset(a->cvc.hat_esign, 0, 2);
 		b2_keypair(a->priv, a->cvc.pubkey, a->privlen, tape_gen, &tape);
 		a->cvc.pubkey_len = 2 * a->privlen;
 		switch (viol)
